@@ -503,7 +503,7 @@ func (h *Session) SetDHCPv4IPOffer(mac net.HardwareAddr, ip netip.Addr, name Nam
 	macEntry := h.MACTable.findOrCreate(mac)
 	macEntry.Row.Lock() // DHCPv4Update and the name updates write these fields under the row lock
 	macEntry.IP4Offer = ip
-	macEntry.DHCP4Name = name
+	macEntry.DHCP4Name, _ = macEntry.DHCP4Name.Merge(name) // keep what a previous DHCP message taught us
 	macEntry.Row.Unlock()
 }
 
